@@ -1,6 +1,7 @@
 package checks
 
 import (
+	"bytes"
 	"context"
 	"crypto/tls"
 	"errors"
@@ -292,6 +293,27 @@ func (ch c12) connect(c *core.Ctx, env *hs.Env, cfg c12config, p c12packet, yiel
 		out := outAll()
 		if replyKinds(out) != "R(3)" || closed {
 			return viol("auth-first", "authentication exchange is not first", replyKinds(out))
+		}
+		if len(p.Pairs)%6 == 5 {
+			// an answer to the password request that is no password message (oversized, below the minimum
+			// length, another type, unterminated): the start-up ends there - no AuthenticationOk, no
+			// ParameterStatus, no ReadyForQuery, whatever else the server says on its way out
+			v := len(p.user()) % 4
+			bad := [][]byte{pg.Raw('p', bytes.Repeat([]byte{'x'}, 1<<16+10)), pg.RawLen('p', uint32(len(p.Pairs)%4), nil), pg.Query("select 1"), pg.Raw('p', []byte("unterminated"))}[v]
+			cl.C.Send(append(bad, pg.Query("pipelined behind the answer")...))
+			cl.C.CloseWrite()
+			cl.C.WaitClosed()
+			k := replyKinds(outAll())
+			after, _, _ := pg.ParseStream(outAll())
+			ok0 := false
+			for _, m := range after {
+				ok0 = ok0 || (m.T == 'R' && m.Auth == 0)
+			}
+			c.Count("password_requests_answered_by_something_else", 1)
+			if ok0 || strings.ContainsAny(pg.Types(after), "ZS") {
+				return viol("auth-order", "a start-up whose password request was not answered by a password message goes on", fmt.Sprintf("variant %d: after the password request the server sent %s", v, k))
+			}
+			return true
 		}
 		cl.C.Send(pg.Password("pw"))
 		closed, _ = cl.C.Quiesce()
